@@ -308,6 +308,26 @@ def fd_program(rng, nvars, ncons, lo, hi, n_eq=1):
     return goals
 
 
+def collapse_neq_program(rng):
+    """Several multi-pair disequalities over a chain of variables, then ONE unification that decides the outer
+    variables: the stored constraints shrink to constraints on the shared middle variables, often to the very same
+    constraint (one then subsumes the other in the middle of a run_constraints pass).  Returns (goals, nvars)."""
+    n = rng.randint(2, 3)                       # number of disequalities
+    vs = list(range(1, n + 2))                  # chain x1 .. x(n+1)
+    val = lambda: ["num", rng.randint(1, 2)]
+    goals = []
+    for i in range(n):
+        a, b = vs[i], vs[i + 1]
+        if rng.random() < 0.5:
+            a, b = b, a
+        goals.append(["neq", ["list", [var(a), var(b)]], ["list", [val(), val()]]])
+    outer = [vs[0], vs[-1]] if n == 2 else rng.choice([[vs[0], vs[-1]], [vs[0], vs[2]], [vs[1], vs[-1]], [vs[0], vs[1], vs[-1]]])
+    goals.append(["eq", ["list", [var(v) for v in outer]], ["list", [val() for _ in outer]]])
+    if rng.random() < 0.4:
+        goals.append(["eq", var(rng.choice(vs)), val()])
+    return goals, len(vs)
+
+
 def fd_alias_program(rng):
     """A constraint on x, a value that reaches x through an alias variable (x == a, a == n), and x's domain:
     four goals (seven with a second variable) whose every order must give the same answers.  Returns (goals, nq);
